@@ -1,4 +1,4 @@
-import BluetoeModel.LlControl.SecLemmas
+import BluetoeModel.LlControl.OrderLemmas
 /-!
   # C29 — Connection lifecycle is reported completely and in order
 
@@ -10,30 +10,14 @@ import BluetoeModel.LlControl.SecLemmas
 
   The callbacks are the entries of `ring< 4 >` (`connection_callbacks::events_`), pushed with
   `try_push` whose result is ignored and drained by `handle_connection_events` at the end of
-  every radio callback.  The full statement is FALSE of the code (`callbacks_well_ordered_witness`):
-  the fifth and later events of one radio callback are dropped.  What is proved for all inputs is
-  the behaviour of the queue itself; the simulation invariant "phase = automaton state whenever
-  no callback produced more than four events" (`callbacks_well_ordered_partial` of DESIGN §5) is
-  NOT proved here — it is evaluated by the monitor on every sampled history.
+  every radio callback.  The full statement is FALSE of the code (`callbacks_well_ordered_witness`,
+  `early_disconnect_witness`): the fifth and later events of one radio callback are dropped, and
+  `disconnect()` before the first connection event suppresses `established`.
+  `callbacks_well_ordered_partial` proves the statement for every history that avoids exactly
+  these two situations (automaton `LState`/`lstep`/`lstateOf` and the invariant live in
+  OrderLemmas.lean).
 -/
 namespace BluetoeModel.LlControl
-
-/-- the language `(requested (attempt_timeout | established other* closed))*` as an automaton -/
-inductive LState where
-  | idle | requested | established | bad
-deriving DecidableEq, Repr
-
-def isOther : Event → Bool
-  | .changed | .version _ | .rejected _ | .unknown _ | .features _ | .phy _ _ => true
-  | _ => false
-
-def lstep : LState → Event → LState
-  | .idle, .requested => .requested
-  | .requested, .attemptTimeout => .idle
-  | .requested, .established => .established
-  | .established, .closed _ => .idle
-  | .established, e => if isOther e then .established else .bad
-  | _, _ => .bad
 
 /-- all callbacks of a history, in order -/
 def trace : List Out → List Event
@@ -89,9 +73,9 @@ theorem ring_pushes (es : List Event) : ∀ (s : State), s.ring.length ≤ 4 →
     · have hp : (push s e).ring = s.ring ++ [e] := by simp [push, hl]
       rw [ih _ (by rw [hp]; simp; omega), hp]
       simp
-    · have hp : push s e = s := by simp [push, hl]
+    · have hp : (push s e).ring = s.ring := by simp [push, hl]
       have h4 : s.ring.length = 4 := by omega
-      rw [hp, ih _ h]
+      rw [ih _ (by rw [hp]; exact h), hp]
       rw [List.take_append_of_le_length (by omega), List.take_append_of_le_length (by omega)]
 
 theorem ring_reports_first_four (s : State) (es : List Event) (h : s.ring = []) :
@@ -111,6 +95,106 @@ theorem ring_empty_between_callbacks (c : Cfg) (ops : List Op) : (run (init c) o
     | nil => intro s h; exact h
     | cons op ops ih => intro s h; simp only [run]; exact ih _ (hstep s op h)
   exact hrun ops _ rfl
+
+/-- the history variable `dropped` counts exactly the refused `try_push` calls -/
+theorem dropped_only_when_ring_full (s : State) (e : Event) :
+    (push s e).dropped = s.dropped + (if s.ring.length < 4 then 0 else 1) := by
+  unfold push; split <;> simp
+
+theorem K_drain {l : LState} {x : State} (h : K l x) : K (x.ring.foldl lstep l) (drain x).1 :=
+  ⟨h.defer, fun hd he => by simpa [drain] using h.order hd he⟩
+
+theorem step_K (l : LState) (s : State) (op : Op) (h : K l s) (hr : s.ring = []) :
+    K ((step s op).2.cbs.foldl lstep l) (step s op).1 ∧ (step s op).1.ring = [] := by
+  have same : ∀ s' : State, s'.phase = s.phase → s'.deferred = s.deferred → s'.dropped = s.dropped →
+      s'.early = s.early → s'.ring = s.ring → K l s' := by
+    intro s' h1 h2 h3 h4 h5
+    exact ⟨by rw [h1, h2]; exact h.defer, by rw [h3, h4, h5, h1]; exact h.order⟩
+  cases op with
+  | key e r => exact ⟨same _ rfl rfl rfl rfl rfl, hr⟩
+  | connect i t =>
+    simp only [step]
+    split
+    · exact ⟨h, hr⟩
+    · rename_i hp
+      simp only [ne_eq, Decidable.not_not] at hp
+      split
+      · exact ⟨K_drain (K_connect h hp hr i t), rfl⟩
+      · exact ⟨h, hr⟩
+  | ev pdus =>
+    simp only [step]
+    split
+    · exact ⟨h, hr⟩
+    · rename_i hp
+      have hk : K l (radioExchange s pdus).1 := same _ rfl rfl rfl rfl rfl
+      exact ⟨K_drain (K_endEvent hk hp), rfl⟩
+  | timeout =>
+    simp only [step]
+    split
+    · exact ⟨h, hr⟩
+    · rename_i hp
+      exact ⟨K_drain (K_timeoutCallback h hp), rfl⟩
+  | adv => simp only [step]; split <;> exact ⟨h, hr⟩
+  | apiDisconnect r =>
+    simp only [step]
+    split
+    · rename_i hc
+      refine ⟨⟨?_, ?_⟩, hr⟩
+      · intro hh; simp [resetEncryption] at hh
+      · intro hd he
+        simp only [resetEncryption, Bool.or_eq_false_iff, decide_eq_false_iff_not] at hd he ⊢
+        have ho := h.order hd he.1
+        simp only [hr, List.foldl_nil] at ho ⊢
+        rw [ho]
+        have hne := he.2
+        cases hph : s.phase <;> simp_all [connectedLike, lstateOf]
+    · exact ⟨h, hr⟩
+  | apiVersion => simp only [step]; split <;> exact ⟨same _ rfl rfl rfl rfl rfl, hr⟩
+  | apiParam a b c d =>
+    simp only [step]
+    split
+    · split <;> exact ⟨same _ rfl rfl rfl rfl rfl, hr⟩
+    · exact ⟨h, hr⟩
+  | apiParamLl a b c d => simp only [step]; split <;> exact ⟨same _ rfl rfl rfl rfl rfl, hr⟩
+  | apiPhy t r => simp only [step]; split <;> exact ⟨same _ rfl rfl rfl rfl rfl, hr⟩
+
+theorem run_K (ops : List Op) : ∀ (l : LState) (s : State), K l s → s.ring = [] →
+    K ((trace (run s ops).2).foldl lstep l) (run s ops).1 ∧ (run s ops).1.ring = [] := by
+  induction ops with
+  | nil => intro l s h hr; exact ⟨h, hr⟩
+  | cons op ops ih =>
+    intro l s h hr
+    have hs := step_K l s op h hr
+    have := ih _ _ hs.1 hs.2
+    simp only [run, trace, List.foldl_append]
+    exact this
+
+theorem agree_lstateOf (p : Phase) : agree p (lstateOf p) = true := by cases p <;> rfl
+
+/-- **C29, strongest true statement**: for every history of connects, connection events with
+    arbitrary PDU lists, radio timeouts and API calls, on both link layer types: if no radio
+    callback produced more than four lifecycle events (`dropped = 0`: `try_push` never refused,
+    see `dropped_only_when_ring_full` and `ring_empty_between_callbacks`) and `disconnect()` was
+    never called between `requested` and the first connection event (`early = false`), then the
+    callbacks reported so far form a word of `(requested (attempt_timeout | established other*
+    closed))*` (prefix) and are complete: the automaton is in the state of the link layer. -/
+theorem callbacks_well_ordered_partial (c : Cfg) (ops : List Op)
+    (hd : (run (init c) ops).1.dropped = 0) (he : (run (init c) ops).1.early = false) :
+    agree (run (init c) ops).1.phase ((trace (run (init c) ops).2).foldl lstep .idle) = true := by
+  have hk : K .idle (init c) := ⟨fun _ => rfl, fun _ _ => rfl⟩
+  obtain ⟨k, hr⟩ := run_K ops .idle (init c) hk rfl
+  have := k.order hd he
+  rw [hr, List.foldl_nil] at this
+  rw [this]
+  exact agree_lstateOf _
+
+/-- the second excluded situation is a real violation as well: `disconnect()` right after
+    `requested`: the connection is reported `closed` without ever having been `established` -/
+theorem early_disconnect_witness :
+    trace (run (init ⟨false, false⟩) [.connect 24 72, .apiDisconnect 0x16, .ev [], .ev [], .ev []]).2
+      = [.requested, .closed 0x16]
+    ∧ (run (init ⟨false, false⟩) [.connect 24 72, .apiDisconnect 0x16, .ev [], .ev [], .ev []]).1.early = true := by
+  decide
 
 /-- non-vacuity / the good case: the same burst without the second reject fits into the ring
     and the trace is complete -/
